@@ -1,5 +1,5 @@
 \* spec mutation noHasAny (StartCommand does not check the queue): TLC must reject it
-CONSTANTS Nodes = {"n1", "n2"}  Cmds = {"A", "B"}  MaxRepl = 0  T = 1  MaxNow = 2  MaxFaults = 0  MaxRestarts = 1
+CONSTANTS Nodes = {"n1", "n2"}  Cmds = {"A", "B"}  MaxRepl = 0  T = 1  MaxNow = 2  MaxFaults = 0  MaxRestarts = 1  MaxCandVanish = 0
           DelFaults = TRUE  CodeMode = "code"  Weak = "noHasAny"  Serial = FALSE  Gen = FALSE  MaxLen = 0
 SPECIFICATION Spec
 INVARIANTS TypeOK Inv_C08_DeleteAfterAllInitialized Inv_C08_NoDeleteAfterFailure_Code Inv_C08_SingleCommandPerNode Inv_C08_RolledBackWhenQuiet Inv_C08_RolledBackByAction
